@@ -267,10 +267,34 @@ func genC18() {
 		predBodies[p.goName] = body
 		// return strings.HasPrefix(key, BisyncKeyPrefix+":") && strings.Contains(key, "<lit>")
 		const pre = `{ return strings.HasPrefix(key, BisyncKeyPrefix+":") && strings.Contains(key, `
-		if !strings.HasPrefix(body, pre) || !strings.HasSuffix(body, `) }`) {
-			die("%s: unexpected body %s", p.goName, body)
+		litSrc := ""
+		if strings.HasPrefix(body, pre) && strings.HasSuffix(body, `) }`) {
+			litSrc = strings.TrimSuffix(strings.TrimPrefix(body, pre), `) }`)
+		} else {
+			// session 5 (additive, C13 owner): any other spelling of the predicate (operands swapped, a local, parentheses):
+			// the literal is the string-literal argument of the ONE strings.Contains call of the body. That the predicate as
+			// a whole is prefix-test AND infix-test is no longer this generator's business: the function is translated to
+			// Lean and proved equal to the model (gofn_bisynckeypreds, Props/C13Gen.lean gen_isBisync…Key_eq_model)
+			var lits []string
+			ast.Inspect(fd.Body, func(n ast.Node) bool {
+				ce, ok := n.(*ast.CallExpr)
+				if !ok || len(ce.Args) != 2 {
+					return true
+				}
+				if se, ok := ce.Fun.(*ast.SelectorExpr); ok && se.Sel.Name == "Contains" {
+					if x, ok := se.X.(*ast.Ident); ok && x.Name == "strings" {
+						if bl, ok := ce.Args[1].(*ast.BasicLit); ok && bl.Kind == token.STRING {
+							lits = append(lits, bl.Value)
+						}
+					}
+				}
+				return true
+			})
+			if len(lits) != 1 {
+				die("%s: unexpected body %s", p.goName, body)
+			}
+			litSrc = lits[0]
 		}
-		litSrc := strings.TrimSuffix(strings.TrimPrefix(body, pre), `) }`)
 		lit, err := strconv.Unquote(litSrc)
 		if err != nil {
 			die("%s: %v", p.goName, err)
@@ -362,4 +386,6 @@ func genC18() {
 	// the inventory of target writers (C13) and the cluster transaction flag (C18): own generator name,
 	// so that a failure here is reported as `gen_errors[c13]` and leaves the facts above intact
 	runGen("c13", genC13Writers)
+	runGen("c18slot", genC18Slot)
+	runGen("c18facts", genC18Facts)
 }
